@@ -97,56 +97,3 @@
         kani::cover!(r.is_some());
         kani::cover!(r.is_none() && widx.is_some());
     }
-
-    #[kani::proof]
-    #[kani::unwind(5)]
-    #[kani::stub(std::time::Instant::elapsed, stub_elapsed)]
-    #[kani::stub(std::time::Instant::now, stub_now)]
-    #[kani::stub(crate::server::push_event, stub_push_event)]
-    fn available_backends_is_exactly_the_eligible_subset() {
-        let (mut l, facts) = setup(Box::new(RoundRobin::new()));
-        let backup: bool = kani::any();
-        let v = l.available_backends(backup);
-        // exactly the backends with that backup flag that are eligible, in list order
-        let mut expect = 0usize;
-        let mut i = 0;
-        while i < N {
-            if facts[i].backup == backup && facts[i].eligible() {
-                assert!(expect < v.len());
-                assert!(Rc::ptr_eq(&v[expect], &l.backends[i]));
-                expect += 1;
-            }
-            i += 1;
-        }
-        assert!(v.len() == expect);
-        kani::cover!(v.len() == 2);
-    }
-
-    #[kani::proof]
-    #[kani::unwind(5)]
-    #[kani::stub(std::time::Instant::elapsed, stub_elapsed)]
-    #[kani::stub(std::time::Instant::now, stub_now)]
-    #[kani::stub(crate::server::push_event, stub_push_event)]
-    fn cascade_primary_then_backup_then_fail_open() {
-        let lb: Box<dyn LoadBalancingAlgorithm> = if kani::any() { Box::new(RoundRobin { next_backend: kani::any() }) }
-            else { Box::new(LeastLoaded { metric: LoadMetric::Connections }) };
-        let (mut l, facts) = setup(lb);
-        let r = l.next_available_backend_with_key(None);
-        let any_primary = (0..N).any(|i| !facts[i].backup && facts[i].eligible());
-        let any_backup = (0..N).any(|i| facts[i].backup && facts[i].eligible());
-        let any_open = (0..N).any(|i| facts[i].fail_open());
-        match &r {
-            None => assert!(!any_primary && !any_backup && !any_open),
-            Some(b) => {
-                let i = index_of(&l, b);
-                assert!(i < N);                                      // a member of the cluster's list
-                if any_primary { assert!(!facts[i].backup && facts[i].eligible()); }
-                else if any_backup { assert!(facts[i].backup && facts[i].eligible()); }
-                else { assert!(any_open && facts[i].fail_open()); }
-            }
-        }
-        kani::cover!(r.is_some() && any_primary);
-        kani::cover!(r.is_some() && !any_primary && any_backup);
-        kani::cover!(r.is_some() && !any_primary && !any_backup);
-        kani::cover!(r.is_none());
-    }
